@@ -41,6 +41,13 @@ package kernel
 //@   modifies c.Snapshots, c.Snapshots[..]
 //@   ensures [added] result == nil && add ==> RoundOK(c) && len(c.Snapshots) == old(len(c.Snapshots)) + 1 && c.Snapshots[len(c.Snapshots)-1] == s
 //@   ensures [kept] (result != nil || !add) ==> RoundOK(c) && len(c.Snapshots) == old(len(c.Snapshots))
+//@   hint after Gap [gapcompat] forall k int :: 0 <= k && k < len(c.Snapshots) ==> Compatible(c.Snapshots[k], s)
+//@   hint return [last] result == nil && add ==> len(c.Snapshots) == old(len(c.Snapshots)) + 1 && c.Snapshots[len(c.Snapshots)-1] == s
+//@   hint return [news] result == nil && add ==> (forall k int :: 0 <= k && k < len(c.Snapshots) - 1 ==>
+//@       Compatible(c.Snapshots[k], s) && Compatible(s, c.Snapshots[k]) &&
+//@       c.Snapshots[k].Timestamp < s.Timestamp + config.SnapshotRoundGap && s.Timestamp < c.Snapshots[k].Timestamp + config.SnapshotRoundGap)
+//@   hint return [olds] result == nil && add ==> (forall i, j int :: 0 <= i && i < len(c.Snapshots) - 1 && 0 <= j && j < len(c.Snapshots) - 1 ==>
+//@       c.Snapshots[i].Timestamp < c.Snapshots[j].Timestamp + config.SnapshotRoundGap && (i != j ==> Compatible(c.Snapshots[i], c.Snapshots[j])))
 //@   loop 0 invariant forall k int :: 0 <= k && k <= rangeindex_0 ==> Compatible(c.Snapshots[k], s)
 //@   loop 1 invariant forall k int :: 0 <= k && k <= rangeindex_0 ==> Compatible(c.Snapshots[k], s)
 //@   loop 1 invariant rangeindex_0 + 1 < len(c.Snapshots) && cs == c.Snapshots[rangeindex_0 + 1]
